@@ -280,11 +280,10 @@ func genService(t *rapid.T) ServiceCase {
 	c.Persist = rapid.IntRange(0, 3).Draw(t, "persist") > 0
 	c.NoSettle = rapid.IntRange(0, 3).Draw(t, "nosettle") == 3
 	if rapid.IntRange(0, 11).Draw(t, "agg") == 11 {
-		a := &AggCfg{T: rapid.IntRange(0, 1).Draw(t, "aggT")}
-		if rapid.Bool().Draw(t, "aggMatch") {
-			a.Match = genMatch(t, 1)
-		}
-		c.Agg = a
+		// no match expression on the aggregate handler: DeregisterHandlerSpec closes a handler only if the
+		// registered object has a Close method, and the match wrapper has none - the aggregate handler's
+		// goroutine and 20 ms ticker would stay behind in every such case and slow the process down
+		c.Agg = &AggCfg{T: rapid.IntRange(0, 1).Draw(t, "aggT")}
 	}
 	// rapid prefers short slices: a drawn minimum length keeps long histories frequent, and shrinks away first
 	min := rapid.IntRange(1, 24).Draw(t, "minOps")
@@ -590,9 +589,14 @@ func (h *svcHarness) modelCollect(st *srcTopic, ev mEvent) {
 // handlersIdle: no goroutine is inside Service.Collect (the harness calls Collect only synchronously, so
 // any such frame belongs to a publish or aggregate handler that republishes).
 func handlersIdle() bool {
-	buf := make([]byte, 1<<19)
-	n := runtime.Stack(buf, true)
-	return !strings.Contains(string(buf[:n]), "services/alert.(*Service).Collect(")
+	buf := make([]byte, 1<<18)
+	for {
+		n := runtime.Stack(buf, true)
+		if n < len(buf) || len(buf) >= 1<<26 {
+			return !strings.Contains(string(buf[:n]), "services/alert.(*Service).Collect(")
+		}
+		buf = make([]byte, 2*len(buf))
+	}
 }
 
 // beforeDrain runs before every step that makes the service wait for handler goroutines while it holds its
@@ -1157,7 +1161,7 @@ var serviceAssumptions = []string{
 	"match functions (no user documentation in the repository; names and closures in services/alert/handlers.go): changed() = the event's level differs from the level of the preceding event with the same id on the topic (OK if none), level() = the event's level with OK<INFO<WARNING<CRITICAL, name() = measurement name, taskName() = task name, alertDuration() = the event's duration (the function called duration() in the property text was renamed, CHANGELOG #2448)",
 	"handlers are observed through private targets: a publish handler republishes to its own sink topic that carries an anonymous recording handler (RegisterAnonHandler); a log handler appends alert.Data JSON to its own file; log is an external handler and skips events flagged NoExternal (externalHandler doc comment)",
 	"for the first event with some id on a publish target the previous level may be OK or the previous level it had on the source topic (the statement does not say which)",
-	"aggregate (wall-clock ticker, interval 20 ms): only conservation of counts, id/topic of the aggregated events and the overall highest level are checked, after a bounded wait; an aggregate handler is never updated or removed mid-history (its Close discards what it has buffered)",
+	"aggregate (wall-clock ticker, interval 20 ms): only conservation of counts, id/topic of the aggregated events and the overall highest level are checked, after a bounded wait; the aggregate handler has no match expression (the match wrapper hides its Close: it would leak its goroutine and ticker in the test process) and is never updated or removed mid-history (its Close discards what it has buffered)",
 	"CloseTopic/RestoreTopic are generated only with persist-topics enabled and RestoreTopic only on a closed or still empty topic (alert.go runAlert); across close/restore an event whose latest state is OK may be present or absent (Collect deletes an OK state from the store)",
 	"UpdateEvent only on topics the API reports as existing and that are not closed; UpdateHandlerSpec only for an existing handler (API precondition); updating a handler onto the id of another handler of the topic may be refused (no change) or replace both",
 	"closing or deleting a topic ends the registration of its anonymous handlers (alert.go registers them again at task start); handler specs stay registered on the topic",
@@ -1167,6 +1171,7 @@ func TestService(t *testing.T) {
 	r := kit.NewRec("C09", "Service", serviceRule, serviceAssumptions...)
 	svcRec = r
 	kit.Check(t, r, genService, runService)
+	t.Logf("goroutines at the end of the unit: %d", runtime.NumGoroutine())
 }
 
 func TestReplayService(t *testing.T) {
